@@ -38,7 +38,8 @@ def build(rng, casedir, index, tier, stable=None, size=None, nrec=None, tags="sa
     lines = [r.line for r in recs]
     if w.stable:
         lines = [rgaf.ref_to_stable(g, l) for l in lines]
-    w.lines = lines
+    w.lines, w.text_kind = ggaf.text_variant(lines, rng)
+    lines = w.lines
     w.walks = walks
     w.nodesets = [rgaf.traversed_nodes(g, w.coords, l) for l in lines]
     w.mode = mode or rng.choice(["plain", "plain", "bgzf", "pysam"])
@@ -72,6 +73,6 @@ def expected_selection(w, nodes):
 def expected_str_line(line):
     """what re-serialising a parsed record (safe tag class) must look like: the read name is cut at
     its first space, everything else verbatim"""
-    cols = line.split("\t")
+    cols = line.rstrip().split("\t")
     cols[0] = cols[0].split(" ")[0]
     return "\t".join(cols)
